@@ -543,7 +543,17 @@ func SelfIntersects(polys []Poly, eps float64) bool {
 	}
 	var es []edge
 	for k, poly := range polys {
-		p := poly.P
+		// repeated points (a zero-length closing segment after a curve that returns to the start) are dropped
+		// first, so that the edges on both sides of them are recognised as adjacent
+		var p []Pt
+		for _, q := range poly.P {
+			if len(p) == 0 || p[len(p)-1] != q {
+				p = append(p, q)
+			}
+		}
+		for len(p) > 1 && p[len(p)-1] == p[0] {
+			p = p[:len(p)-1]
+		}
 		n := len(p)
 		for i := 0; i < n; i++ {
 			a, b := p[i], p[(i+1)%n]
